@@ -63,7 +63,7 @@ class Registry:
         self.objs = {}
 
     def get(self, oid, builtin, s):
-        k = (oid, builtin)
+        k = oid
         if k not in self.objs:
             self.objs[k] = object() if builtin else Custom(s)
         return self.objs[k]
@@ -242,14 +242,15 @@ EDGE_STRINGS = [
 ]
 
 
-def edge_values():
+def edge_values(thorough=False):
     vals = [["none"], ["undef"], ["bool", 1], ["bool", 0]]
     ints = [0, 1, -1, 2, 7, 10, 255, 2 ** 31 - 1, 2 ** 31, -2 ** 31, -2 ** 31 - 1, 2 ** 32, 2 ** 53 - 1, 2 ** 53,
             2 ** 53 + 1, 2 ** 53 + 2, -(2 ** 53 + 1), 2 ** 54 + 2, 2 ** 54 + 4, 2 ** 63, 2 ** 64 - 1, 2 ** 64, 10 ** 20,
             10 ** 22, 10 ** 23, 2 ** 100, 2 ** 100 + 1, 3 * 2 ** 200, (2 ** 53 - 1) * 2 ** 971, (2 ** 53 - 1) * 2 ** 971 + 1,
             2 ** 1023, 2 ** 1024 - 2 ** 970, 2 ** 1024 - 2 ** 970 - 1, 2 ** 1024 - 1, 2 ** 1024, 2 ** 1024 + 1,
-            -2 ** 1024, 2 ** 1025, 2 ** 2000, 10 ** 400, 10 ** 4299, 10 ** 4300 - 1, 10 ** 4300, -10 ** 4300,
-            -(10 ** 4300 - 1), 10 ** 5000, 2 ** 20000]
+            -2 ** 1024, 2 ** 1025, 2 ** 2000, 10 ** 400, 10 ** 4300 - 1, 10 ** 4300]
+    if thorough:
+        ints += [10 ** 4299, -10 ** 4300, -(10 ** 4300 - 1), 10 ** 5000, 2 ** 20000]
     for z in ints:
         vals.append(ispec(z))
     vals += [ispec(5, 1), ispec(2 ** 31, 1), ispec(-3, 1), ispec(2 ** 53 + 1, 1)]
@@ -268,8 +269,8 @@ def edge_values():
     vals += [["list", []], ["list", [ispec(1)]], ["list", [sspec("1")]], ["list", [["list", []]]],
              ["list", [fspec(math.nan)]], ["list", [ispec(1), ["bool", 1], fspec(1.0)]],
              ["dict", []], ["dict", [[[97], ispec(1)]]], ["dict", [[[97], ["list", [ispec(1)]]], [[98], ["none"]]]]]
-    vals += [["obj", 1, 0, [ord(c) for c in "custom"]], ["obj", 2, 0, [49, 50]], ["obj", 3, 0, []],
-             ["obj", 4, 1, []], ["obj", 5, 0, [ord(c) for c in "1e3"]], ["obj", 6, 0, [0x661]]]
+    vals += [["obj", 101, 0, [ord(c) for c in "custom"]], ["obj", 102, 0, [49, 50]], ["obj", 103, 0, []],
+             ["obj", 104, 1, []], ["obj", 105, 0, [ord(c) for c in "1e3"]], ["obj", 106, 0, [0x661]]]
     return vals
 
 
@@ -277,7 +278,10 @@ NUM_ALPHA = list("0123456789") + list("0011--++..eE__  xX") + ["١", "٩", "２"
                                                                  "inf", "nan", "a", " ", "9" * 9]
 
 
-def rand_value(rng, depth=0):
+OBJ_STRS = ["", "1", "-1", "1e3", " 1", "١", "0x10", "abc", "nan", "1.5", "2147483648", "true"]
+
+
+def rand_value(rng, depth=0, thorough=False):
     r = rng.random()
     if r < 0.30:
         kind = rng.randrange(8)
@@ -293,7 +297,7 @@ def rand_value(rng, depth=0):
             z = rng.randrange(-2 ** 31 - 5, 2 ** 31 + 5)
         elif kind == 5:
             z = 10 ** rng.choice([1, 5, 15, 16, 22, 23, 100, 308, 309]) + rng.randrange(-1, 2)
-        elif kind == 6:
+        elif kind == 6 and thorough and rng.random() < 0.02:
             z = rng.getrandbits(rng.choice([14270, 14283, 14284, 14285, 14290]))
         else:
             z = rng.randrange(-10, 11)
@@ -328,7 +332,8 @@ def rand_value(rng, depth=0):
     if r < 0.90:
         return ["bytes", [rng.randrange(48, 58) for _ in range(rng.randrange(3))]]
     if r < 0.93:
-        return ["obj", rng.randrange(1, 9), 0, [ord(c) for c in "".join(rng.choice(NUM_ALPHA) for _ in range(rng.randrange(4)))]]
+        i = rng.randrange(len(OBJ_STRS))
+        return ["obj", 1 + i, 0, [ord(c) for c in OBJ_STRS[i]]]
     if r < 0.94:
         return ["obj", 20 + rng.randrange(3), 1, []]
     if r < 0.95:
@@ -357,7 +362,8 @@ def enum_pool():
              ["dict", []], ["dict", [[[97], ispec(1)]]], ["dict", [[[97], fspec(1.0)]]], ["dict", [[[97], ["bool", 1]]]],
              ["dict", [[[97], ispec(1)], [[98], ispec(2)]]], ["dict", [[[98], ispec(2)], [[97], ispec(1)]]],
              ["dict", [[[97], ispec(2)]]], ["dict", [[[98], ispec(1)]]], ["dict", [[[97], ["list", [ispec(1)]]]]],
-             ["obj", 1, 0, [65]], ["obj", 2, 0, [65]], ["obj", 3, 1, []], ["obj", 4, 1, []], ispec(1, 1), fspec(1.0, 1)]
+             ["obj", 201, 0, [65]], ["obj", 202, 0, [65]], ["obj", 203, 1, []], ["obj", 204, 1, []], ispec(1, 1),
+             fspec(1.0, 1)]
         ENUM_POOL = P
     return ENUM_POOL
 
@@ -706,9 +712,9 @@ def run(tier):
     for c in common.load_corpus("C16"):
         if "value" in c:
             specs.append(c["value"])
-    specs += edge_values()
+    specs += edge_values(not quick)
     n_rand = 2500 if quick else 60000
-    specs += [rand_value(ck.rng) for _ in range(n_rand)]
+    specs += [rand_value(ck.rng, 0, not quick) for _ in range(n_rand)]
     ck.rule = ("(A) every edge value (bool; ints around 2^31, 2^53, 2^1024, the 4300-digit str limit; floats incl. -0.0, nan, "
                "inf, subnormals, 1e308; numeric-looking/whitespace/non-ASCII-digit/empty strings; bytes; lists; dicts; "
                f"objects with __str__; None; Undefined; int/float/str subclasses) and {n_rand} random values x 5 built-in "
